@@ -488,6 +488,31 @@ def produceBlock (env : Env) (body : Body) (cid : Bytes) (W : World) (cands : Li
   let r := gatherTxs H env body cid W cands
   ({ r.1 with led := commitNames r.1.led }, r.2)
 
+/-- One step of a node's main chain: a block received from the network (with the chain id its header carries, and
+what the node's pool holds at that moment), or a block the node produces itself from candidates of its pool. -/
+inductive NodeStep
+  | recv (hdr : HdrCid) (txs : List Tx) (useMempool : Bool) (hit : Tx → Bool)
+  | own (cands : List PEntry)
+
+/-- The main chain of a node as it grows block by block on top of a block carrying chain id `best` (block `i` first):
+received blocks go through `execHBlock`, own blocks through `produceBlock` under the header an honest factory stamps
+(`NewBlockHeaderInfoFromPrevBlock`: this chain's id in the version configured for the block's number). -/
+def runNode (env : Env) (body : Body) (hc : HdrCid → Bytes) (cfgVer : Nat → Nat) :
+    Nat → HdrCid → World → List NodeStep → Option (World × List LogEntry)
+  | _, _, W, [] => some (W, [])
+  | i, best, W, .recv hdr txs useMempool hit :: r =>
+    match execHBlock H Verify env body hc cfgVer useMempool hit best i W hdr txs with
+    | .error _ => none
+    | .ok (W1, log) =>
+      match runNode env body hc cfgVer (i + 1) hdr W1 r with
+      | none => none
+      | some (W2, log') => some (W2, log ++ log')
+  | i, best, W, .own cands :: r =>
+    match runNode env body hc cfgVer (i + 1) ⟨cfgVer i, best.rest⟩
+        (produceBlock H env body (hc ⟨cfgVer i, best.rest⟩) W cands).1 r with
+    | none => none
+    | some (W2, log') => some (W2, (produceBlock H env body (hc ⟨cfgVer i, best.rest⟩) W cands).2 ++ log')
+
 end
 
 /-! ### The concrete body used by the correspondence driver (zero fee, no contracts) -/
